@@ -443,7 +443,7 @@ def r4(ctx):
                     idx = KIND_METHODS.index(last)
                     if recv == newp:
                         return kinds[nk][idx]
-                    if recv == latest_attr_holder[0]:
+                    if recv in latest_attr_holder:
                         return kinds[lk][idx]
                     return NOTHING
                 if last == "walk_to_tree_insertion_point":
@@ -462,15 +462,23 @@ def r4(ctx):
 
     # which attribute is "latest"?  the one compared with self.root in insert
     latest = None
+    # a local that merely names an attribute of self (`latest = self._latest_node`, never re-bound) is that attribute
+    local_alias = {}
+    for n in walk_no_nested(ins.node):
+        if isinstance(n, ast.Assign) and len(n.targets) == 1 and isinstance(n.targets[0], ast.Name):
+            nm = n.targets[0].id
+            local_alias[nm] = u(n.value) if nm not in local_alias and re.fullmatch(r"self\.\w+", u(n.value)) else None
+    local_alias = {k: v for k, v in local_alias.items() if v}
     for n in walk_no_nested(ins.node):
         if isinstance(n, ast.Compare) and len(n.ops) == 1 and isinstance(n.ops[0], (ast.Eq, ast.Is)):
             l, r = u(n.left), u(n.comparators[0])
+            l, r = local_alias.get(l, l), local_alias.get(r, r)
             if r == "self.root" and l.startswith("self."):
                 latest = l
             elif l == "self.root" and r.startswith("self."):
                 latest = r
     ctx.require(latest is not None, "SourceTree.insert: comparison of the latest node with self.root not found")
-    holder = [latest]
+    holder = [latest] + [k for k, v in local_alias.items() if v == latest]
     rows = 0
     for nk in "SCEN":
         for lk in "SCEN":
@@ -503,6 +511,8 @@ def r4(ctx):
                 else:
                     exp_parent, exp_walk = latest + ".parent", 0
                 got_parent = adds[0][1][: -len(".add_child")] if len(adds) == 1 else None
+                if R and got_parent == "self.root":
+                    got_parent = latest  # on this path the latest node IS the root
                 ok = (
                     len(adds) == 1 and vtext(adds[0][2]) == newp and got_parent == exp_parent and len(walks) == exp_walk
                     and len(stores) == 1 and vtext(stores[0][2]) == newp
